@@ -121,8 +121,17 @@ impl<'a> SendTransactionsProofProcess<'a> {
             // Check extra hash for blocks
             let is_v1 = self.message.count_extra_fields() >= 2;
             let extensions = if is_v1 {
-                let message_v1 =
-                    packed::SendTransactionsProofV1Reader::new_unchecked(self.message.as_slice());
+                // The message was only verified as `SendTransactionsProof`, the extra fields
+                // were not.
+                let message_v1 = if let Ok(message_v1) =
+                    packed::SendTransactionsProofV1Reader::from_compatible_slice(
+                        self.message.as_slice(),
+                    ) {
+                    message_v1
+                } else {
+                    let errmsg = "the extra fields are not uncles hashes and extensions";
+                    return StatusCode::MalformedProtocolMessage.with_context(errmsg);
+                };
                 let uncle_hashes: Vec<_> = message_v1
                     .blocks_uncles_hash()
                     .iter()
